@@ -561,3 +561,226 @@ pub fn run_instance(id: u64, cfg: &Cfg, calls: &[Value], opts: &RunOpts) -> RunR
     }
     RunResult { events, outcomes, stats: stats_out, bytes: sink.bytes(), crashed }
 }
+
+// ------------------------------------------------------------------------------------------------
+// fragmented muxer
+// ------------------------------------------------------------------------------------------------
+use muxide::codec::vp9::Vp9Config;
+use muxide::fragmented::{FragmentConfig, FragmentedMuxer};
+
+fn vp9_from(v: &Value) -> Vp9Config {
+    Vp9Config {
+        width: gu(v, "width") as u32,
+        height: gu(v, "height") as u32,
+        profile: gu(v, "profile") as u8,
+        bit_depth: gu(v, "bit_depth") as u8,
+        color_space: gu(v, "color_space") as u8,
+        transfer_function: gu(v, "transfer_function") as u8,
+        matrix_coefficients: gu(v, "matrix_coefficients") as u8,
+        level: gu(v, "level") as u8,
+        full_range_flag: gu(v, "full_range_flag") as u8,
+    }
+}
+
+fn wide(v: &Value, k: &str) -> u64 {
+    // integer field given either as a number or as big-endian bytes (values >= 2^31)
+    match v.get(k) {
+        Some(Value::Array(a)) => a.iter().fold(0u64, |acc, b| (acc << 8) | b.as_u64().unwrap_or(0)),
+        Some(x) => x.as_u64().unwrap_or(0),
+        None => 0,
+    }
+}
+
+pub fn build_frag(cfg: &Cfg) -> Result<FragmentedMuxer, MuxerError> {
+    let j = &cfg.json;
+    let (w, h) = (wide(j, "w") as u32, wide(j, "h") as u32);
+    if gs(j, "via") == "config" {
+        let fc = FragmentConfig {
+            width: w,
+            height: h,
+            timescale: wide(j, "timescale") as u32,
+            fragment_duration_ms: wide(j, "fragms") as u32,
+            sps: j.get("sps").map(bytes_of).unwrap_or_default(),
+            pps: j.get("pps").map(bytes_of).unwrap_or_default(),
+            vps: j.get("vps").map(bytes_of),
+            av1_sequence_header: j.get("av1").map(bytes_of),
+            vp9_config: j.get("vp9").map(vp9_from),
+        };
+        return Ok(FragmentedMuxer::new(fc));
+    }
+    let mut b = MuxerBuilder::new(Vec::<u8>::new());
+    if !gb(j, "novideo") {
+        b = b.video(cfg.vcodec(), w, h, 30.0);
+    }
+    if let Some(x) = j.get("sps") {
+        b = b.with_sps(bytes_of(x));
+    }
+    if let Some(x) = j.get("pps") {
+        b = b.with_pps(bytes_of(x));
+    }
+    if let Some(x) = j.get("vps") {
+        b = b.with_vps(bytes_of(x));
+    }
+    if let Some(x) = j.get("av1") {
+        b = b.with_av1_sequence_header(bytes_of(x));
+    }
+    if let Some(x) = j.get("vp9") {
+        b = b.with_vp9_config(vp9_from(x));
+    }
+    b.new_with_fragment()
+}
+
+pub fn run_frag_instance(id: u64, cfg: &Cfg, calls: &[Value]) -> RunResult {
+    let mut events = Vec::new();
+    let mut outcomes = Vec::new();
+    let mut out_bytes: Vec<u8> = Vec::new();
+    let mut crashed = false;
+    let mut new_ev = Map::new();
+    new_ev.insert("ev".into(), json!("new"));
+    new_ev.insert("i".into(), json!(id));
+    new_ev.insert("kind".into(), json!("frag"));
+    new_ev.insert("cfg".into(), cfg.json.clone());
+    if let Some(mb) = cfg.json.get("must_build") {
+        new_ev.insert("must_build".into(), mb.clone());
+    }
+    let built = catch(|| build_frag(cfg));
+    let mut mux = match built {
+        Ok(Ok(m)) => {
+            new_ev.insert("ok".into(), json!(true));
+            new_ev.insert("var".into(), json!(""));
+            Some(m)
+        }
+        Ok(Err(e)) => {
+            new_ev.insert("ok".into(), json!(false));
+            new_ev.insert("var".into(), json!(variant_name(&e)));
+            None
+        }
+        Err(msg) => {
+            new_ev.insert("ok".into(), json!(false));
+            new_ev.insert("var".into(), json!("panic"));
+            new_ev.insert("msg".into(), json!(msg));
+            crashed = true;
+            None
+        }
+    };
+    events.push(Value::Object(new_ev));
+    let unit = Unit(cfg.unit());
+    let facets = cfg.facets();
+    let mut first_init: Option<Vec<u8>> = None;
+    if let Some(m) = mux.as_mut() {
+        for c in calls {
+            let op = gs(c, "op");
+            let mut ev = Map::new();
+            ev.insert("i".into(), json!(id));
+            let mut var = String::new();
+            match op {
+                "fw" => {
+                    ev.insert("ev".into(), json!("f_write"));
+                    let (pn, dn) = (gu(c, "pts"), gu(c, "dts"));
+                    ev.insert("pts".into(), json!(pn));
+                    ev.insert("dts".into(), json!(dn));
+                    let data = bytes_of(c.get("data").unwrap_or(&Value::Null));
+                    ev.insert("data".into(), bytes_json(&data));
+                    let sync = gb(c, "sync");
+                    ev.insert("sync".into(), json!(sync));
+                    let (pts, dts) = (pn.wrapping_mul(unit.0).wrapping_add(wide(c, "pts_add")), dn.wrapping_mul(unit.0).wrapping_add(wide(c, "dts_add")));
+                    match catch(|| m.write_video(pts, dts, &data, sync)) {
+                        Ok(Ok(())) => {
+                            ev.insert("ok".into(), json!(true));
+                            outcomes.push((true, String::new()));
+                        }
+                        Ok(Err(_)) => {
+                            ev.insert("ok".into(), json!(false));
+                            var = "NonMonotonicDts".into();
+                            outcomes.push((false, var.clone()));
+                        }
+                        Err(msg) => {
+                            ev.insert("ok".into(), json!(false));
+                            ev.insert("msg".into(), json!(msg));
+                            var = "panic".into();
+                        }
+                    }
+                }
+                "ff" => {
+                    ev.insert("ev".into(), json!("f_flush"));
+                    match catch(|| m.flush_segment()) {
+                        Ok(Some(seg)) => {
+                            ev.insert("some".into(), json!(true));
+                            ev.insert("seg".into(), reader::project_segment(&seg, &unit, &facets));
+                            out_bytes.extend_from_slice(&seg);
+                            outcomes.push((true, "segment".into()));
+                        }
+                        Ok(None) => {
+                            ev.insert("some".into(), json!(false));
+                            outcomes.push((true, "none".into()));
+                        }
+                        Err(msg) => {
+                            ev.insert("some".into(), json!(false));
+                            ev.insert("msg".into(), json!(msg));
+                            var = "panic".into();
+                        }
+                    }
+                }
+                "fr" | "fd" => {
+                    ev.insert("ev".into(), json!("f_query"));
+                    ev.insert("op".into(), json!(if op == "fr" { "ready" } else { "dur" }));
+                    if op == "fr" {
+                        match catch(|| m.ready_to_flush()) {
+                            Ok(b) => {
+                                ev.insert("val".into(), json!(b));
+                                outcomes.push((true, format!("ready={}", b)));
+                            }
+                            Err(msg) => {
+                                ev.insert("val".into(), json!(false));
+                                ev.insert("msg".into(), json!(msg));
+                                var = "panic".into();
+                            }
+                        }
+                    } else {
+                        match catch(|| m.current_fragment_duration_ms()) {
+                            Ok(d) => {
+                                ev.insert("val".into(), json!(d.min(0x7fff_ffff)));
+                                outcomes.push((true, format!("dur={}", d)));
+                            }
+                            Err(msg) => {
+                                ev.insert("val".into(), json!(0));
+                                ev.insert("msg".into(), json!(msg));
+                                var = "panic".into();
+                            }
+                        }
+                    }
+                }
+                "fi" => {
+                    ev.insert("ev".into(), json!("f_init"));
+                    match catch(|| m.init_segment()) {
+                        Ok(init) => {
+                            ev.insert("len".into(), json!(init.len()));
+                            let same = first_init.as_ref().map(|f| f == &init).unwrap_or(true);
+                            ev.insert("same_as_first".into(), json!(same));
+                            if first_init.is_none() {
+                                ev.insert("obs".into(), reader::project_file(&init, &unit, &facets));
+                                out_bytes.extend_from_slice(&init);
+                                first_init = Some(init);
+                            }
+                            outcomes.push((true, format!("init same={}", same)));
+                        }
+                        Err(msg) => {
+                            ev.insert("len".into(), json!(0));
+                            ev.insert("same_as_first".into(), json!(true));
+                            ev.insert("msg".into(), json!(msg));
+                            var = "panic".into();
+                        }
+                    }
+                }
+                _ => continue,
+            }
+            ev.insert("var".into(), json!(var.clone()));
+            events.push(Value::Object(ev));
+            if var == "panic" {
+                crashed = true;
+                break;
+            }
+        }
+    }
+    RunResult { events, outcomes, stats: None, bytes: out_bytes, crashed }
+}
